@@ -3,24 +3,32 @@
 (M) TLC checks spec/ParseLoop.tla: over every token soup of <= 3 classes (35-class alphabet) the
     retyping function is sound (RetypeSound, PrevIsLast) and Loads ends in "ok" or "larkerror"
     only (Contract), "ok" for the minimal document of every block type (MinimalAccepted).  Three
-    broken variants of the spec must be rejected by TLC (non-vacuity of the invariants).
+    broken variants of the spec (Loads may end in "other"; retyping a symbol attribute; retyping
+    without a predecessor) must be rejected by TLC, else the run is a machinery failure.
 (G) verdict: TLC emits
-      - every soup of <= L classes at the bare root and after each root-opener class (exhaustive),
-      - long random soups (simulation),
-      - a minimal document per block type (19 + SYMBOLSET) - allowed = {"ok"},
-      - class-level mutation behaviours (Delete/Duplicate/Swap/Truncate/Splice/Break of the
-        canonical documents; exhaustive single (quick) / double (thorough) + random triples),
+      - every soup of <= L classes (L = 3 quick, 4 thorough) at the bare root and after each
+        root-opener class - the concrete root type rotates over all 19 block types, SYMBOLSET and
+        the 4 key/value blocks - and (thorough) every soup of <= 5 classes over a 16-class core;
+      - random soups of 8..64 classes (simulation);
+      - the minimal document of each block type (19 + SYMBOLSET) with allowed = {"ok"};
+      - class-level mutation behaviours: Delete / Duplicate / Swap / Truncate / Splice / Break
+        (= unterminated string, regex, comment) of 12 canonical documents, every single mutation
+        (quick) / every pair (thorough), and random triples;
       - index-level mutation behaviours over a 16-token window with a donor window, which the
-        harness applies to corpus files (/repo/tests, /repo/docs, *.map) and to documents generated
-        from spec/Reader.tla (harness/docs.walks);
-    every class is given a concrete lexeme (seeded), the text is fed to the real parser +
-    transformer (one Parser per worker process; options default / comments / positions; the
-    public mappyfile.loads on a sample), and the outcome class must be one the spec allows.
+        harness applies to the corpus (/repo/tests, /repo/docs, *.map, split by a simple
+        tokeniser) and to documents generated from spec/Reader.tla (harness/docs.walks);
+    every class gets a concrete lexeme (seeded), the text goes through the real parser +
+    transformer (one Parser per worker process; default options, kept comments, positions; the
+    public mappyfile.loads on a sample) and the outcome class must be one the spec allows:
+    a dict / list of dicts or a LarkError, syntax errors with a usable line and column.
     INCLUDE expansion is kept out with expand_includes=False (C15 covers it).
-(T) the iter_parse seam records, per token, terminal before/after the loop body and the value
-    stack top; spec/TraceParseLoop.tla replays the records through the spec's Retype/After and
-    judges the recorded outcome with OutcomeOK.  Mechanism disagreement = MECHANISM-DRIFT only.
-Timing clause: measured, not decided by the model - see the evidence notes.
+(T) the iter_parse seam (harness/parseloop.py, installed at run time) records per token the
+    terminal before/after the loop body and the value-stack top; spec/TraceParseLoop.tla replays
+    the records through the spec's Retype/After and judges the recorded outcome with OutcomeOK.
+    Mechanism disagreement is MECHANISM-DRIFT only; OutcomeOK must agree with the harness
+    classifier on every sampled outcome (else machinery failure).
+Timing clause: measured (CPU time per call over a x100 length range), not decided by the model -
+see the evidence notes.
 """
 from __future__ import annotations
 import glob
@@ -265,8 +273,9 @@ def run(tier):
     expected_soups = sum(len(CLASSES) ** i for i in range(L + 1))
     if sizes["soup_bare"] != expected_soups:
         raise common.MachineryFailure("TLC emitted %d bare-root soups, expected %d" % (sizes["soup_bare"], expected_soups))
-    if sizes["min"] != 20:
-        raise common.MachineryFailure("expected 20 minimal documents, got %d" % sizes["min"])
+    want_roots = set(v["grammar"]["block_types"]) | {"symbolset"}
+    if sizes["min"] != len(want_roots) or {b["t"] for b in pl.DATA["min"]} != want_roots:
+        raise common.MachineryFailure("expected one minimal document per block type (%d), got %d" % (len(want_roots), sizes["min"]))
     pl.CFG.update(seed=seed, allowed=hdr["allowed"], symattrs=symattrs)
     pl.CORPUS[:] = corpus + wdocs
     rng = random.Random(seed * 7919 + 5)
@@ -313,6 +322,7 @@ def run(tier):
     per_origin = {}
     cpu_origin = {}
     sig_seen = {}
+    allbad = []
     for fname, tag, a in asyncs:
         res = a.get(timeout=3600)
         ck.count(res["n"])
@@ -322,12 +332,17 @@ def run(tier):
             counts[k] = counts.get(k, 0) + n
         roots_ok |= res["roots_ok"]
         traces += res["traces"]
-        for sig, what, case in res["bad"]:
-            fam = "|".join(sig.split("|")[:3])
-            sig_seen.setdefault(fam, set())
-            if sig in sig_seen[fam] or len(sig_seen[fam]) < 12:     # at most 12 contexts per failure family
-                sig_seen[fam].add(sig)
-                ck.violation(sig, what, case)
+        allbad += res["bad"]
+    # a failure that also happens with the default options is reported once, without the option suffix
+    sigs = {b[0] for b in allbad}
+    for sig, what, case in allbad:
+        if "|opts=" in sig and sig.split("|opts=")[0] in sigs:
+            continue
+        fam = "|".join(sig.split("|")[:3])
+        sig_seen.setdefault(fam, set())
+        if sig in sig_seen[fam] or len(sig_seen[fam]) < 12:     # at most 12 contexts per failure family
+            sig_seen[fam].add(sig)
+            ck.violation(sig, what, case)
     pool.close()
     pool.join()
     t_pool = time.time() - t_fork
@@ -338,7 +353,6 @@ def run(tier):
     ndistinct = sum(sizes.values())
 
     # the 19 block types (+SYMBOLSET) as root: must all have been seen accepted
-    want_roots = set(v["grammar"]["block_types"]) | {"symbolset"}
     for t in sorted(want_roots - roots_ok):
         ck.violation("C11|root-rejected|%s" % t, "block type %s was never accepted as the root of a partial Mapfile" % t,
                      {"text": "%s END" % t.upper(), "opt": ""})
@@ -392,6 +406,7 @@ def run(tier):
     ck.sample({"behaviours": sizes, "evaluations_per_origin": per_origin})
     ck.sample({"timing": {k: tcover[k]["ratio_vs_linear"] for k in sorted(tcover)}})
     return ck.finish(exhaustive=False, coverage_extra={
+        "distinct_nontrivial": ndistinct,
         "soup_alphabet": len(CLASSES), "soup_max_len": L, "behaviours_replayed": ndistinct,
         "corpus_files": ncorp, "generated_docs": len(wdocs), "roots_accepted": sorted(roots_ok),
         "traces_tlc_validated": len(traces), "mechanism_drift_traces": drift_n,
